@@ -88,6 +88,12 @@ def _build_model(spec, route="ctor", cls=None, style=None, initialize=True):
         m = cls(species=list(spec["species"]), initialize_model=False)
         for i_, t in enumerate(rx):
             _poison(m, spec, i_)
+            if spec.get("init_after") == i_ and i_ > 0:
+                # the model is initialised (and thereby usable) half-way; the remaining reactions are added afterwards
+                for k, v in params:
+                    if k in m.get_params2index():
+                        m.set_parameter(k, v)
+                m.py_initialize()
             if len(t) == 4:
                 m.create_reaction(t[0], t[1], t[2], t[3])
             else:
